@@ -97,6 +97,14 @@ func (c *simConn) Write(p []byte) (int, error) {
 			return written, h.werr
 		}
 		if h.rclosed {
+			// the peer has gone: keep a record of what the writer tried to send
+			if len(h.wrote) < recLimit {
+				k := recLimit - len(h.wrote)
+				if k > len(p) {
+					k = len(p)
+				}
+				h.wrote = append(h.wrote, p[:k]...)
+			}
 			return written, &net.OpError{Op: "write", Net: "sim", Err: syscall.EPIPE}
 		}
 		n := len(p)
